@@ -397,6 +397,17 @@ pub fn gen_scenario(run_seed: u64, variant: &str, tier: Tier) -> E2Scenario {
             let kind = *rf.pick(&["truncate", "truncate", "truncate", "bitflip", "bitflip", "splice", "empty", "badutf8", "unispace", "unispace", "token_subst", "token_subst", "paste_spread", "vanish", "unreadable"]);
             corruptions.push(Corruption { path: p, kind: kind.into(), a: rf.below(len), b: rf.below(8) });
         }
+        if tier == Tier::Thorough && rf.chance(1, 12) {
+            // every prefix of one (small) input: a write torn at any byte
+            let mut small: Vec<&String> = tree.keys().filter(|p| tree[*p].len() <= 600).collect();
+            small.sort();
+            if !small.is_empty() {
+                let p = (*rf.pick(&small)).clone();
+                for k in 0..tree[&p].len() {
+                    corruptions.push(Corruption { path: p.clone(), kind: "truncate".into(), a: k, b: 0 });
+                }
+            }
+        }
         // torn config writes that end shortly after a key: the value is a prefix of what it was
         let cfg = project.config_path();
         let text = &tree[&cfg];
@@ -1501,6 +1512,9 @@ fn drive_c17(sc: &E2Scenario, rep: &mut RunReport) {
             let mut rf = Rng::new(sc.faults.sample_seed);
             let ks: Vec<usize> = if !sc.faults.pinned.is_empty() {
                 sc.faults.pinned.iter().map(|f| f.k).collect()
+            } else if sc.faults.sweep {
+                // thorough tier: a crash before every intercepted call of the fault-free trace
+                (0..n_calls).collect()
             } else {
                 (0..2).map(|_| rf.below(n_calls)).collect()
             };
